@@ -24,7 +24,59 @@ WS = ('SP', 'TAB', 'LF', 'CR')
 # look-ahead characters tried in every inner cell (None: the character
 # itself, for tests of the form text[pos] == char / first_char)
 LOOKAHEADS = (('la=DQ', '"'), ('la=BAR', '|'), ('la=x', 'x'),
-              ('la=same', None))
+              ('la=same', None), ('la=SEMI', ';'), ('la=LF', '\n'),
+              ('la=LP', '('), ('la=RP', ')'), ('la=SP', ' '))
+
+
+def char_set_const(m, e, depth=0):
+    """Set of characters denoted by a constant expression (string, tuple /
+    list / set of characters, frozenset(...), unions and concatenations,
+    string.ascii_letters etc., module-level names); None if it is not one."""
+    import string as _string
+    if depth > 6 or e is None:
+        return None
+    if isinstance(e, ast.Constant) and isinstance(e.value, str):
+        return set(e.value)
+    if isinstance(e, (ast.Tuple, ast.List, ast.Set)):
+        out = set()
+        for x in e.elts:
+            if not (isinstance(x, ast.Constant) and isinstance(x.value, str)
+                    and len(x.value) == 1):
+                return None
+            out.add(x.value)
+        return out
+    if isinstance(e, ast.Call) and call_name(e) in (
+            'frozenset', 'set', 'tuple', 'list', 'sorted') and len(
+                e.args) == 1:
+        return char_set_const(m, e.args[0], depth + 1)
+    if isinstance(e, ast.BinOp) and isinstance(e.op, (ast.Add, ast.BitOr)):
+        a = char_set_const(m, e.left, depth + 1)
+        b = char_set_const(m, e.right, depth + 1)
+        return None if a is None or b is None else a | b
+    if isinstance(e, ast.BinOp) and isinstance(e.op, ast.Sub):
+        a = char_set_const(m, e.left, depth + 1)
+        b = char_set_const(m, e.right, depth + 1)
+        return None if a is None or b is None else a - b
+    if isinstance(e, ast.Attribute) and isinstance(
+            e.value, ast.Name) and e.value.id == 'string' and hasattr(
+                _string, e.attr) and isinstance(
+                    getattr(_string, e.attr), str):
+        return set(getattr(_string, e.attr))
+    if isinstance(e, ast.Name) and len(m.globals.get(e.id, [])) == 1:
+        return char_set_const(m, m.globals[e.id][0], depth + 1)
+    return None
+
+
+def lexclass(ch):
+    """SMT-LIB 2.6 lexical class of a character, as a named class."""
+    for k, v in CLASSES.items():
+        if v == ch:
+            return k
+    if ch in ' \t\n\r':
+        return {' ': 'SP', '\t': 'TAB', '\n': 'LF', '\r': 'CR'}[ch]
+    if ch.isdigit():
+        return 'DIGIT'
+    return 'OTHER'
 
 
 class Explorer:
@@ -125,6 +177,22 @@ class Explorer:
                 return ('fork', txt, False)
         if isinstance(e, ast.Name) and e.id in ('cur_expr', 'exprs'):
             return ('fork', e.id, False)
+        if isinstance(e, ast.Call) and isinstance(
+                e.func, ast.Attribute) and e.func.attr == 'startswith' and \
+                isinstance(e.func.value, ast.Name) and \
+                e.func.value.id == 'text' and len(e.args) == 2 and unparse(
+                    e.args[1]) == 'pos' and env.get('__la__') is not None:
+            # text.startswith(C, pos): the next character is C (false at
+            # the end of the text, which rule R3 judges)
+            cs = None
+            if isinstance(e.args[0], ast.Constant) and isinstance(
+                    e.args[0].value, str) and len(e.args[0].value) == 1:
+                cs = {e.args[0].value}
+            elif isinstance(e.args[0], ast.Tuple):
+                cs = {x.value for x in e.args[0].elts
+                      if isinstance(x, ast.Constant)}
+            if cs is not None:
+                return env['__la__'] in cs
         if isinstance(e, ast.Call) and isinstance(
                 e.func, ast.Attribute) and isinstance(
                     e.func.value, ast.Name) and e.func.value.id == 'char' \
@@ -264,17 +332,32 @@ def extract_table(chk, prog):
     ex.consts = {}
     for name, vals in m.globals.items():
         if len(vals) == 1:
-            try:
-                v = ast.literal_eval(vals[0])
-                if isinstance(v, (tuple, list, set, frozenset, str)):
-                    ex.consts[name] = v
-            except Exception:
-                if isinstance(vals[0], ast.Call) and call_name(
-                        vals[0]) == 'frozenset' and vals[0].args:
-                    try:
-                        ex.consts[name] = ast.literal_eval(vals[0].args[0])
-                    except Exception:
-                        pass
+            v = char_set_const(m, vals[0])
+            if v is not None:
+                ex.consts[name] = v
+    # character classes induced by the scanner's own tests: one
+    # representative per cell of the partition that all character sets and
+    # constants appearing in its tests make of the printable characters
+    sets_ = []
+    for x in ast.walk(f):
+        if isinstance(x, ast.Compare) and len(x.ops) == 1:
+            for side in (x.left, x.comparators[0]):
+                cs = char_set_const(m, side)
+                if cs:
+                    sets_.append(frozenset(cs))
+    universe = [chr(i) for i in range(32, 127)] + ['\t', '\n', '\r',
+                                                   '\x0b', '\xe9']
+    cells = {}
+    for ch in universe:
+        key = tuple(ch in s_ for s_ in sets_) + (lexclass(ch), )
+        cells.setdefault(key, ch)
+    have = set(CLASSES.values())
+    for key, ch in sorted(cells.items(), key=lambda kv: kv[1]):
+        if ch not in have and not any(
+                tuple(c2 in s_ for s_ in sets_) + (lexclass(c2), ) == key
+                for c2 in have):
+            CLASSES[f'C{ord(ch)}'] = ch
+            have.add(ch)
     if len(ex.reads) < 3:
         raise AnalysisError(
             f'parse_smtlib: only {len(ex.reads)} character read points '
@@ -401,6 +484,8 @@ def rule_r1(chk, m, f, top, states, table):
                 for s, n in states.items():
                     if p['end'] is n:
                         kinds.add('start:' + s)
+        cname0 = cname
+        cname = lexclass(CLASSES[cname])
         if cname in WS:
             want = {'skip'}
         elif cname == 'LP':
@@ -414,12 +499,12 @@ def rule_r1(chk, m, f, top, states, table):
         else:
             want = {'start:TOKEN'}
         ok = kinds == want
-        msg = (f'at top level, class {cname} ({CLASSES[cname]!r}) leads to '
-               f'{sorted(kinds)}, the standard prescribes {sorted(want)}')
+        msg = (f'at top level, class {cname0} ({CLASSES[cname0]!r}) leads '
+               f'to {sorted(kinds)}, the standard prescribes {sorted(want)}')
         if cname == 'CR' and not ok:
             msg += (' - carriage return is white space in SMT-LIB: '
                     '"(a\\r\\nb)" yields the leaf "a\\r"')
-        chk.check('C08.R1', where, f'TOP x {cname} -> {sorted(kinds)}', ok,
+        chk.check('C08.R1', where, f'TOP x {cname0} -> {sorted(kinds)}', ok,
                   msg, loc=loc, nontrivial=True)
     # ---- inner states
     def cell(state, cname, la):
@@ -446,6 +531,7 @@ def rule_r1(chk, m, f, top, states, table):
         return res
 
     def expect(state, cname, la):
+        cname = lexclass(CLASSES[cname])
         if state == 'TOKEN':
             if cname in WS:
                 # consumed here, or left for the top level which skips it
